@@ -26,6 +26,56 @@ Proof.
     destruct (b_thr b); simpl in H; try discriminate; reflexivity.
 Qed.
 
+(* ---------- tactics ---------- *)
+Ltac bsimpl := cbn [b_ph b_g b_thr b_cause b_seqs b_with_seqs b_with_g b_with_ph b_with_thr b_with_cause].
+Ltac spec H := try (specialize (H ltac:(first [reflexivity | discriminate]))).
+Ltac bsimpl' := unfold exceeded; unfold inflight, failed_seqs; bsimpl.
+Ltac gred H := cbn [tget tset t_bypass t_pre t_cont t_post t_deferred] in H.
+Ltac gredg := cbn [tget tset t_bypass t_pre t_cont t_post t_deferred].
+Ltac gidle_solve H7 :=
+  let g := fresh "g" in let Hc := fresh "Hc" in let Hi := fresh "Hi" in
+  intros g Hc Hi; destruct g; try discriminate Hc; gred Hi;
+  first [ congruence
+        | match goal with |- _ = ph_of ?g0 \/ _ =>
+            let A := fresh "A" in let B := fresh "B" in
+            destruct (H7 g0 eq_refl Hi) as [A|[A B]];
+            first [ discriminate A | discriminate B | congruence | left; exact A | left; reflexivity
+                  | right; split; [reflexivity|first [exact B|reflexivity]] ]
+          end ].
+Ltac gdead_solve H8 :=
+  let g := fresh "g" in let Hc := fresh "Hc" in let Hd := fresh "Hd" in
+  intros g Hc Hd; destruct g; try discriminate Hc; gred Hd;
+  first [ congruence
+        | left; reflexivity
+        | left; solve [auto]
+        | left; rewrite Hd; apply orb_true_r
+        | match goal with |- _ \/ _ = ph_of ?g0 \/ _ =>
+            let A := fresh "A" in let B := fresh "B" in
+            destruct (H8 g0 eq_refl Hd) as [A|[A|[A B]]];
+            first [ discriminate A | discriminate B | congruence | left; exact A
+                  | left; rewrite A; reflexivity | right; left; exact A | right; left; reflexivity
+                  | right; right; split; [reflexivity|first [exact B|reflexivity]] ]
+          end ].
+Ltac gwf_solve H9 :=
+  let g := fresh "g" in
+  intro g; destruct g; gredg;
+  first [ assumption | exact (H9 GBypass) | exact (H9 GPre) | exact (H9 GCont) | exact (H9 GPost) | exact (H9 GDeferred) ].
+Ltac gabs_solve H10 :=
+  let g := fresh "g" in let Hn := fresh "Hn" in
+  intros g Hn; destruct g; gredg;
+  first [ exact (H10 GBypass Hn) | exact (H10 GPre Hn) | exact (H10 GCont Hn) | exact (H10 GPost Hn) | exact (H10 GDeferred Hn)
+        | solve [auto] | (cbn [grp_get] in Hn; congruence) ].
+Ltac bimgc_solve H12 :=
+  let A := fresh "A" in let B := fresh "B" in let C := fresh "C" in let D := fresh "D" in
+  intro A; destruct (H12 A) as (B & C & D); first [discriminate B | congruence | (repeat split; congruence)].
+Ltac bimgn_solve H14 := let A := fresh "A" in intro A; specialize (H14 A); first [discriminate H14 | congruence].
+Ltac prelude HB :=
+  pose proof HB as [H1 H2 H3 H4 H5 H6 H7 H8 H9 H10 H11 H12 H13 H14 H15 H16];
+  unfold exceeded in H5; unfold inflight, failed_seqs in H2, H3, H5, H6.
+Ltac ssimpl := cbn [s_img s_ph s_g s_thr s_cb s_b s_reason s_late s_fin with_img with_reason with_ph with_g with_thr
+                    with_block with_b with_late with_fin].
+Ltac ph_side := try discriminate; auto; try (let A := fresh "A" in intros [A|A]; discriminate A).
+
 Section Proofs.
 Variable sh : shape.
 
@@ -140,9 +190,6 @@ Proof.
   apply orb_true_iff in H2 as [H2|H2]; [left; now apply Z.ltb_lt|right; now apply Z.leb_le].
 Qed.
 
-Ltac bsimpl := cbn [b_ph b_g b_thr b_cause b_seqs b_with_seqs b_with_g b_with_ph b_with_thr b_with_cause].
-Ltac spec H := try (specialize (H ltac:(first [reflexivity | discriminate]))).
-Ltac bsimpl' := unfold exceeded; unfold inflight, failed_seqs; bsimpl.
 
 Lemma BInv_launch bs im cb b q c :
   BInv bs im cb b -> b_ph b = BSeqs -> launch_guard bs b = true -> nth_error (b_seqs b) q = Some SIdle ->
@@ -570,56 +617,14 @@ Proof.
     + intro Hd. destruct Hc as [->|Hc]; [left; exact Hd|right; eapply gclose_dead; eauto].
 Qed.
 
-Ltac gred H := cbn [tget tset t_bypass t_pre t_cont t_post t_deferred] in H.
-Ltac gredg := cbn [tget tset t_bypass t_pre t_cont t_post t_deferred].
 
 (* goal: forall g, counts g = true -> g_is_idle (tget G' g) = false -> ph' = ph_of g \/ g = GCont /\ thr' = TLive *)
-Ltac gidle_solve H7 :=
-  let g := fresh "g" in let Hc := fresh "Hc" in let Hi := fresh "Hi" in
-  intros g Hc Hi; destruct g; try discriminate Hc; gred Hi;
-  first [ congruence
-        | match goal with |- _ = ph_of ?g0 \/ _ =>
-            let A := fresh "A" in let B := fresh "B" in
-            destruct (H7 g0 eq_refl Hi) as [A|[A B]];
-            first [ discriminate A | discriminate B | congruence | left; exact A | left; reflexivity
-                  | right; split; [reflexivity|first [exact B|reflexivity]] ]
-          end ].
 
 (* goal: forall g, counts g = true -> g_dead (tget G' g) = true -> cause' = true \/ ph' = ph_of g \/ g = GCont /\ thr' = TLive *)
-Ltac gdead_solve H8 :=
-  let g := fresh "g" in let Hc := fresh "Hc" in let Hd := fresh "Hd" in
-  intros g Hc Hd; destruct g; try discriminate Hc; gred Hd;
-  first [ congruence
-        | left; reflexivity
-        | left; solve [auto]
-        | left; rewrite Hd; apply orb_true_r
-        | match goal with |- _ \/ _ = ph_of ?g0 \/ _ =>
-            let A := fresh "A" in let B := fresh "B" in
-            destruct (H8 g0 eq_refl Hd) as [A|[A|[A B]]];
-            first [ discriminate A | discriminate B | congruence | left; exact A
-                  | left; rewrite A; reflexivity | right; left; exact A | right; left; reflexivity
-                  | right; right; split; [reflexivity|first [exact B|reflexivity]] ]
-          end ].
 
-Ltac gwf_solve H9 :=
-  let g := fresh "g" in
-  intro g; destruct g; gredg;
-  first [ assumption | exact (H9 GBypass) | exact (H9 GPre) | exact (H9 GCont) | exact (H9 GPost) | exact (H9 GDeferred) ].
 
-Ltac gabs_solve H10 :=
-  let g := fresh "g" in let Hn := fresh "Hn" in
-  intros g Hn; destruct g; gredg;
-  first [ exact (H10 GBypass Hn) | exact (H10 GPre Hn) | exact (H10 GCont Hn) | exact (H10 GPost Hn) | exact (H10 GDeferred Hn)
-        | solve [auto] | (cbn [grp_get] in Hn; congruence) ].
 
-Ltac bimgc_solve H12 :=
-  let A := fresh "A" in let B := fresh "B" in let C := fresh "C" in let D := fresh "D" in
-  intro A; destruct (H12 A) as (B & C & D); first [discriminate B | congruence | (repeat split; congruence)].
-Ltac bimgn_solve H14 := let A := fresh "A" in intro A; specialize (H14 A); first [discriminate H14 | congruence].
 
-Ltac prelude HB :=
-  pose proof HB as [H1 H2 H3 H4 H5 H6 H7 H8 H9 H10 H11 H12 H13 H14 H15 H16];
-  unfold exceeded in H5; unfold inflight, failed_seqs in H2, H3, H5, H6.
 
 Lemma b_eps_inv bs im cb pvis b b' :
   BInv bs im cb b -> b_eps bs im cb pvis b = Some (BStay b') -> BInv bs im cb b'.
@@ -776,8 +781,6 @@ Lemma enter_block_proj s cb :
   s_thr (enter_block sh s cb) = s_thr s /\ s_cb (enter_block sh s cb) = cb /\ s_b (enter_block sh s cb) = entry sh cb.
 Proof. unfold enter_block, entry. destruct (block_of sh cb); repeat split; reflexivity. Qed.
 
-Ltac ssimpl := cbn [s_img s_ph s_g s_thr s_cb s_b s_reason s_late s_fin with_img with_reason with_ph with_g with_thr
-                    with_block with_b with_late with_fin].
 
 Lemma PInv_G im ph G G' cb : t_bypass G' = t_bypass G -> PInv sh im ph G cb -> PInv sh im ph G' cb.
 Proof. intros E [P1 P2 P3 P4 P5 P6]. constructor; auto; rewrite E; assumption. Qed.
@@ -790,7 +793,6 @@ Proof.
   intros N1 N2 Hm He Hb [P1 P2 P3 P4 P5 P6]. constructor; auto.
 Qed.
 
-Ltac ph_side := try discriminate; auto; try (let A := fresh "A" in intros [A|A]; discriminate A).
 
 Lemma eps_inv s s1 : Inv sh s -> eps sh s = Some s1 -> Inv sh s1.
 Proof.
